@@ -31,6 +31,7 @@ fn main() {
     let cmd = args[1].as_str();
     let id = args[2].as_str();
     let Some(prop) = props::get(id) else { eprintln!("unknown property {id}"); std::process::exit(2) };
+    if args[1] != "plan" { props::warm_up(id); }
     let opt = |name: &str| -> Option<String> { args.iter().position(|a| a == name).and_then(|i| args.get(i + 1).cloned()) };
     let tier_of = |s: &str| if s == "thorough" { Tier::Thorough } else { Tier::Quick };
     match cmd {
